@@ -26,8 +26,11 @@ import (
 	"math"
 	"math/big"
 	"os"
+	"runtime/debug"
+	"runtime/pprof"
 	"sort"
 	"sync"
+	"sync/atomic"
 	"time"
 
 	"golang.org/x/crypto/blake2b"
@@ -63,11 +66,11 @@ func modeName(m consensus.ConsensusMode) string {
 // ---------- oracle 1: exact certificate ----------
 
 // certificate decides whether T == floor(2^k (1-(c/d)^(p/q))) for 0 < c < d, 1 <= p <= q.
-// Returns "" when T is the floor, else "T-too-large" / "T-too-small" / "T-out-of-range".
+// Returns "" when T is the floor, else "T-too-large" / "T-too-small" / "T>=2^k".
 func certificate(T, c, d *big.Int, p, q uint64, k uint) string {
 	twoK := pow2(k)
 	if T == nil || T.Sign() < 0 || T.Cmp(twoK) >= 0 {
-		return "T-out-of-range"
+		return "T>=2^k"
 	}
 	pb, qb := new(big.Int).SetUint64(p), new(big.Int).SetUint64(q)
 	lhs := new(big.Int).Exp(c, pb, nil)
@@ -98,8 +101,23 @@ func ceilDiv2N(x *big.Int, n uint) *big.Int {
 	return r
 }
 
-// powUnit encloses (num/den)^(P/Q) * 2^N for 1/2 <= num/den <= 1 and 0 <= P <= Q.
-func powUnit(num, den, P, Q *big.Int, N, m uint) (lo, hi *big.Int) {
+// rootChain returns directed enclosures of (num/den)^(1/2^i) * 2^N for i = 0..m, 1/2 <= num/den <= 1.
+// It depends only on the base and the precision, so it is computed once per (base, N) and shared.
+type chain struct{ lo, hi []*big.Int }
+
+var (
+	chainMu    sync.Mutex
+	chainCache = map[string]*chain{}
+)
+
+func rootChain(num, den *big.Int, N, m uint) *chain {
+	key := fmt.Sprintf("%x/%x/%d/%d", num, den, N, m)
+	chainMu.Lock()
+	ch, ok := chainCache[key]
+	chainMu.Unlock()
+	if ok {
+		return ch
+	}
 	oneN := pow2(N)
 	t := new(big.Int).Lsh(num, N)
 	rlo, rem := new(big.Int).QuoRem(t, den, new(big.Int))
@@ -107,22 +125,11 @@ func powUnit(num, den, P, Q *big.Int, N, m uint) (lo, hi *big.Int) {
 	if rem.Sign() != 0 {
 		rhi.Add(rhi, one)
 	}
-	t = new(big.Int).Lsh(P, m)
-	jlo, rem := new(big.Int).QuoRem(t, Q, new(big.Int))
-	jhi := new(big.Int).Set(jlo)
-	if rem.Sign() != 0 {
-		jhi.Add(jhi, one)
-	}
-	accLo, accHi := new(big.Int).Set(oneN), new(big.Int).Set(oneN)
+	ch = &chain{}
 	for i := uint(0); i <= m; i++ {
-		bit := int(m - i)
-		if jlo.Bit(bit) == 1 { // smaller exponent -> upper bound (base <= 1)
-			accHi = ceilDiv2N(new(big.Int).Mul(accHi, rhi), N)
-		}
-		if jhi.Bit(bit) == 1 {
-			accLo = new(big.Int).Rsh(new(big.Int).Mul(accLo, rlo), N)
-		}
-		// next square root, directed
+		ch.lo = append(ch.lo, rlo)
+		ch.hi = append(ch.hi, rhi)
+		// next square root, directed: floor for the lower end, ceiling for the upper end
 		rlo = new(big.Int).Sqrt(new(big.Int).Lsh(rlo, N))
 		sq := new(big.Int).Lsh(rhi, N)
 		r := new(big.Int).Sqrt(sq)
@@ -133,6 +140,40 @@ func powUnit(num, den, P, Q *big.Int, N, m uint) (lo, hi *big.Int) {
 			r.Set(oneN)
 		}
 		rhi = r
+	}
+	chainMu.Lock()
+	if len(chainCache) > 64 {
+		chainCache = map[string]*chain{}
+	}
+	chainCache[key] = ch
+	chainMu.Unlock()
+	return ch
+}
+
+// powUnit encloses (num/den)^(P/Q) * 2^N for 1/2 <= num/den <= 1 and 0 <= P <= Q: P/Q is bracketed by
+// jlo/2^m <= P/Q <= jhi/2^m and the product of the selected roots is rounded down / up.
+func powUnit(num, den, P, Q *big.Int, N, m uint) (lo, hi *big.Int) {
+	oneN := pow2(N)
+	t := new(big.Int).Lsh(P, m)
+	jlo, rem := new(big.Int).QuoRem(t, Q, new(big.Int))
+	jhi := new(big.Int).Set(jlo)
+	if rem.Sign() != 0 {
+		jhi.Add(jhi, one)
+	}
+	if jhi.Sign() == 0 {
+		return oneN, new(big.Int).Set(oneN)
+	}
+	ch := rootChain(num, den, N, m)
+	accLo, accHi := new(big.Int).Set(oneN), new(big.Int).Set(oneN)
+	for i := uint(0); i <= m; i++ {
+		bit := int(m - i)
+		if jlo.Bit(bit) == 1 { // smaller exponent -> upper bound (base <= 1)
+			accHi = ceilDiv2N(accHi.Mul(accHi, ch.hi[i]), N)
+		}
+		if jhi.Bit(bit) == 1 {
+			accLo.Mul(accLo, ch.lo[i])
+			accLo.Rsh(accLo, N)
+		}
 	}
 	return accLo, accHi
 }
@@ -196,6 +237,8 @@ type result struct {
 	oracle string
 }
 
+var tRepo, tCert, tInt atomic.Int64
+
 type harness struct {
 	c *vlib.Check
 }
@@ -239,7 +282,12 @@ func (h *harness) eval(mode consensus.ConsensusMode, pool, total uint64, f *big.
 	fn := "CertifiedNatThresholdWithMode"
 	mn := modeName(mode)
 	rp := tcase{int(mode), pool, total, f.Num().String(), f.Denom().String(), class}
+	t0 := time.Now()
 	T, err := consensus.CertifiedNatThresholdWithMode(pool, total, new(big.Rat).Set(f), mode)
+	tRepo.Add(int64(time.Since(t0)))
+	if d := time.Since(t0); d > 300*time.Millisecond && os.Getenv("C37_TIMING") != "" {
+		fmt.Fprintf(os.Stderr, "slow %.2fs %s\n", d.Seconds(), class)
+	}
 	known := mode == consensus.ConsensusModeCPraos || mode == consensus.ConsensusModeTPraos
 	k := modeBits(mode)
 	desc := func() string {
@@ -284,7 +332,7 @@ func (h *harness) eval(mode consensus.ConsensusMode, pool, total uint64, f *big.
 	}
 	if err != nil {
 		c.Eval(class, "error-on-valid-input")
-		c.Violation(fn+"|error-on-valid-input|"+mn+"|"+fDenClass(f), desc(), rp)
+		c.Violation(fn+"|error-on-valid-input|"+fDenClass(f), desc(), rp)
 		return result{}
 	}
 	if T == nil {
@@ -323,7 +371,7 @@ func (h *harness) eval(mode consensus.ConsensusMode, pool, total uint64, f *big.
 			}
 			c.Eval(class, "wrong")
 			c.Violation(fn+"|not-floor|"+mn+"|"+kind, desc()+fmt.Sprintf(" want %s", want), rp)
-			return result{T, "closed"}
+			return result{T, "wrong"}
 		}
 		c.Eval(class, "floor-confirmed:closed-form")
 		return result{T, "closed"}
@@ -334,7 +382,9 @@ func (h *harness) eval(mode consensus.ConsensusMode, pool, total uint64, f *big.
 	g := new(big.Int).GCD(nil, nil, new(big.Int).SetUint64(P), new(big.Int).SetUint64(Q)).Uint64()
 	p, q := P/g, Q/g
 	if q <= 64 && uint64(dN.BitLen())*p <= 4<<20 {
+		t1 := time.Now()
 		verdict := certificate(T, cN, dN, p, q, k)
+		tCert.Add(int64(time.Since(t1)))
 		if verdict == "" {
 			c.Eval(class, "floor-confirmed:exact-certificate")
 			return result{T, "exact"}
@@ -344,9 +394,16 @@ func (h *harness) eval(mode consensus.ConsensusMode, pool, total uint64, f *big.
 			kind = "exact-rational-cutoff"
 		}
 		c.Eval(class, "wrong")
-		c.Violation(fn+"|not-floor|"+mn+"|"+verdict+"|"+kind, desc()+fmt.Sprintf(" (sigma=%d/%d; exact certificate)", p, q), rp)
-		return result{T, "exact"}
+		key := fn + "|not-floor|" + mn + "|" + verdict + "|" + kind
+		if verdict == "T>=2^k" {
+			// one root cause for both modes and both oracles: probability 1 although f < 1
+			key = fn + "|not-floor|T>=2^k-although-f<1"
+		}
+		c.Violation(key, desc()+fmt.Sprintf(" (sigma=%d/%d; exact certificate)", p, q), rp)
+		return result{T, "wrong"}
 	}
+	t2 := time.Now()
+	defer func() { tInt.Add(int64(time.Since(t2))) }()
 	ref, ok, bits := intervalFloor(cN, dN, new(big.Int).SetUint64(p), new(big.Int).SetUint64(q), k, 4)
 	if !ok {
 		c.Eval(class, "undecided-by-interval-reference")
@@ -362,8 +419,12 @@ func (h *harness) eval(mode consensus.ConsensusMode, pool, total uint64, f *big.
 			verdict = "T-too-large"
 		}
 		c.Eval(class, "wrong")
-		c.Violation(fn+"|not-floor|"+mn+"|"+verdict+"|huge-sigma-denominator", desc()+fmt.Sprintf(" want %s (interval reference, %d fractional bits)", ref, bits), rp)
-		return result{T, "interval"}
+		key := fn + "|not-floor|" + mn + "|" + verdict + "|huge-sigma-denominator"
+		if T.Cmp(pow2(k)) >= 0 {
+			key = fn + "|not-floor|T>=2^k-although-f<1"
+		}
+		c.Violation(key, desc()+fmt.Sprintf(" want %s (interval reference, %d fractional bits)", ref, bits), rp)
+		return result{T, "wrong"}
 	}
 	c.Eval(class, "floor-confirmed:interval")
 	return result{T, "interval"}
@@ -376,6 +437,11 @@ func be(v *big.Int, n int) []byte {
 		return v.Bytes()
 	}
 	return v.FillBytes(make([]byte, n))
+}
+
+// compOK limits the (expensive, threshold-recomputing) components call to the first two Praos outputs.
+func compOK(o []byte, outs [][]byte) bool {
+	return len(outs) >= 2 && (&o[0] == &outs[0][0] || &o[0] == &outs[1][0])
 }
 
 func (h *harness) eligibility(mode consensus.ConsensusMode, pool, total uint64, f *big.Rat, T *big.Int, class string, withComponents bool, praosOutputs [][]byte, praosValues []*big.Int) {
@@ -391,7 +457,7 @@ func (h *harness) eligibility(mode consensus.ConsensusMode, pool, total uint64, 
 		if err != nil || got != want {
 			c.Violation("IsVRFOutputBelowThresholdWithMode|"+mn+"|"+where, fmt.Sprintf("leader value %s threshold (pool=%d total=%d f=%s): got %v (%v) want %v", where, pool, total, f.RatString(), got, err, want), rp(o))
 		}
-		if withComponents && len(o) == 64 {
+		if withComponents && len(o) == 64 && (mode == consensus.ConsensusModeTPraos || compOK(o, praosOutputs)) {
 			got, err := consensus.IsSlotLeaderFromComponentsWithMode(o, pool, total, new(big.Rat).Set(f), mode)
 			c.Eval(class+":comp:"+where, map[bool]string{true: "eligible", false: "not-eligible"}[got])
 			if err != nil || got != want {
@@ -428,6 +494,7 @@ type fval struct {
 	name string
 	grid bool // part of the dense a/b grid (all sigma) or a special value
 	adv  bool // near-exact cutoff: only a few sigma
+	slow bool // needs many precision escalations in the code under test
 }
 
 func ratPow2(j uint) *big.Rat { return new(big.Rat).SetFrac(one, pow2(j)) }
@@ -454,6 +521,12 @@ func derive(tag string, seed int64, i, n int) []byte {
 }
 
 func main() {
+	debug.SetGCPercent(400)
+	if pf := os.Getenv("C37_PPROF"); pf != "" {
+		fh, _ := os.Create(pf)
+		_ = pprof.StartCPUProfile(fh)
+		defer pprof.StopCPUProfile()
+	}
 	c := vlib.New("C37", "exploration")
 	h := &harness{c}
 	if c.Replay != "" {
@@ -472,9 +545,9 @@ func main() {
 		h.eval(consensus.ConsensusMode(f.Replay.Mode), f.Replay.Pool, f.Replay.Total, new(big.Rat).SetFrac(n, d), "replay")
 		c.Finish()
 	}
-	Qmax, Bmax := uint64(12), int64(10)
+	Qmax, Bmax, famQ := uint64(12), int64(10), uint64(8)
 	if c.Thorough() {
-		Qmax, Bmax = 24, 20
+		Qmax, Bmax, famQ = 24, 20, 12
 	}
 	modes := []consensus.ConsensusMode{consensus.ConsensusModeCPraos, consensus.ConsensusModeTPraos}
 
@@ -491,7 +564,7 @@ func main() {
 	if Bmax < 20 {
 		fs = append(fs, fval{big.NewRat(1, 20), "1/20", true, false}, fval{big.NewRat(19, 20), "19/20", true, false})
 	}
-	js := []uint{2, 8, 64, 255, 256, 257, 500, 511, 512, 513, 600, 2000}
+	js := []uint{8, 64, 256, 500, 512, 600, 2000}
 	if c.Thorough() {
 		js = []uint{2, 3, 8, 16, 32, 64, 128, 255, 256, 257, 300, 400, 500, 511, 512, 513, 600, 1000, 2000, 5000}
 	}
@@ -500,9 +573,16 @@ func main() {
 		fs = append(fs, fval{new(big.Rat).Sub(big.NewRat(1, 1), ratPow2(j)), fmt.Sprintf("1-2^-%d", j), false, false})
 	}
 	for _, j := range []uint{600, 3000, 20000} {
-		for _, base := range []*big.Rat{big.NewRat(3, 4), big.NewRat(7, 8), big.NewRat(5, 9)} {
-			fs = append(fs, fval{new(big.Rat).Add(base, ratPow2(j)), fmt.Sprintf("%s+2^-%d", base.RatString(), j), false, true})
-			fs = append(fs, fval{new(big.Rat).Sub(base, ratPow2(j)), fmt.Sprintf("%s-2^-%d", base.RatString(), j), false, true})
+		bases := []*big.Rat{big.NewRat(3, 4), big.NewRat(7, 8)}
+		if c.Thorough() || j == 600 {
+			bases = append(bases, big.NewRat(5, 9))
+		}
+		for bi, base := range bases {
+			if !c.Thorough() && j > 600 && bi > 0 {
+				continue // quick: the slow values only around 3/4
+			}
+			fs = append(fs, fval{new(big.Rat).Add(base, ratPow2(j)), fmt.Sprintf("%s+2^-%d", base.RatString(), j), false, true, j > 600})
+			fs = append(fs, fval{new(big.Rat).Sub(base, ratPow2(j)), fmt.Sprintf("%s-2^-%d", base.RatString(), j), false, true, j > 600})
 		}
 	}
 	// ----- stakes of the grid: every p/q, raw and scaled towards 2^64 (same sigma, larger numbers)
@@ -518,7 +598,10 @@ func main() {
 			}
 		}
 	}
-	advSigma := []stakes{{1, 2, "raw"}, {1, 3, "raw"}, {2, 3, "raw"}, {1, 4, "raw"}, {3, 4, "raw"}, {1, 1, "raw"}, {6148914691236517205, 18446744073709551615, "scaled-2^64"}}
+	advSigma := []stakes{{1, 2, "raw"}, {1, 3, "raw"}, {2, 3, "raw"}, {1, 1, "raw"}}
+	if c.Thorough() {
+		advSigma = append(advSigma, stakes{1, 4, "raw"}, stakes{3, 4, "raw"}, stakes{6148914691236517205, 18446744073709551615, "scaled-2^64"})
+	}
 	// ----- coprime / realistic stakes with a huge reduced denominator (oracle 2)
 	var huge []stakes
 	totals := []uint64{math.MaxUint64, math.MaxUint64 - 58 /* 2^64-59, prime */, 1<<63 + 1, 45_000_000_000_000_000, 31_112_484_745_000_000, 22_000_000_000_000_001}
@@ -557,11 +640,26 @@ func main() {
 	type job struct {
 		mode consensus.ConsensusMode
 		fi   int
+		adv  int // index into advSigma for the near-exact-cutoff values (one call per job: they are slow)
 	}
 	var jobs []job
+	for _, m := range modes { // slow single calls first
+		for fi := range fs {
+			if fs[fi].adv {
+				for ai := range advSigma {
+					if !c.Thorough() && fs[fi].slow && advSigma[ai].total != 2 {
+						continue // quick: the very slow values only at sigma = 1/2
+					}
+					jobs = append(jobs, job{m, fi, ai})
+				}
+			}
+		}
+	}
 	for _, m := range modes {
 		for fi := range fs {
-			jobs = append(jobs, job{m, fi})
+			if !fs[fi].adv {
+				jobs = append(jobs, job{m, fi, -1})
+			}
 		}
 	}
 	var mu sync.Mutex
@@ -577,7 +675,9 @@ func main() {
 		run := func(s stakes, elig bool) {
 			class := fmt.Sprintf("%s|f=%s|sigma=%d/%d|%s", modeName(j.mode), fv.name, s.pool, s.total, s.tag)
 			r := h.eval(j.mode, s.pool, s.total, fv.r, class)
-			if r.T == nil {
+			if r.T == nil || r.oracle == "wrong" {
+				// nothing to compare, or already reported under its own key (kept out of the
+				// monotonicity lists so that one root cause is reported once)
 				return
 			}
 			P := s.pool
@@ -592,11 +692,16 @@ func main() {
 		}
 		switch {
 		case fv.adv:
-			for _, s := range advSigma {
-				run(s, false)
-			}
+			run(advSigma[j.adv], false)
+			mu.Lock()
+			recs[j.mode] = append(recs[j.mode], local...)
+			mu.Unlock()
+			return
 		default:
 			for _, s := range grid {
+				if !fv.grid && (s.tag != "raw" || s.total > famQ) {
+					continue // the 2^-j families (slow in the code under test) only on the raw grid up to q = famQ
+				}
 				run(s, s.tag == "raw")
 			}
 			if hugeF[fv.name] {
@@ -618,6 +723,9 @@ func main() {
 		mu.Unlock()
 	})
 
+	if os.Getenv("C37_TIMING") != "" {
+		fmt.Fprintf(os.Stderr, "cpu-ish: repo %.1fs certificate %.1fs interval %.1fs\n", time.Duration(tRepo.Load()).Seconds(), time.Duration(tCert.Load()).Seconds(), time.Duration(tInt.Load()).Seconds())
+	}
 	// ----- corners: f = 0, f = 1, out-of-range f, unknown mode
 	cornerStakes := []stakes{{1, 2, "raw"}, {1, 1, "raw"}, {5, 3, "sigma>1"}, {0, 5, "pool=0"}, {math.MaxUint64 - 1, math.MaxUint64, "huge-denominator"}, {500_000_000, 1_000_000_000, "raw"}}
 	bigNum, _ := new(big.Int).SetString("1000000000000000000000000000000", 10)
@@ -632,7 +740,7 @@ func main() {
 			for _, fv := range []fval{{big.NewRat(0, 1), "0", false, false}, {big.NewRat(1, 1), "1", false, false}} {
 				class := fmt.Sprintf("%s|f=%s|sigma=%d/%d|%s", modeName(m), fv.name, s.pool, s.total, s.tag)
 				r := h.eval(m, s.pool, s.total, fv.r, class)
-				if r.T != nil {
+				if r.T != nil && r.oracle != "wrong" {
 					P := s.pool
 					if P > s.total {
 						P = s.total
@@ -720,6 +828,7 @@ func main() {
 	c.Set("f_values", len(fs))
 	c.Set("grid_stake_pairs", len(grid))
 	c.Set("huge_denominator_stake_pairs", len(huge))
+	pprof.StopCPUProfile()
 	c.Assume("math/big integer arithmetic and blake2b are trusted; total stake 0 and (pool 0, f = 1) have no defined value in the property and are not judged")
 	c.Finish()
 }
